@@ -37,7 +37,8 @@ def pval(v):
             return "PNode"
         if any(isinstance(x, (list, tuple)) for x in v):
             return None                       # nested arrays: not judged
-        return "(PList %s)" % clist([dump_value(x) for x in v])
+        import json
+        return "(PList %s %s)" % (clist([dump_value(x) for x in v]), cstr(json.dumps(list(v))))
     return "(PV %s)" % dump_value(v)
 
 
@@ -74,10 +75,14 @@ def shapes(qc, V=lambda x: x):
 INDEP_FAIL = []
 
 
+LONE = __import__("re").compile(r"\((\?|%s|\$\d+)\)")
+
+
 def param_sql(obj, qc):
     pz = Parameterizer()
     try:
-        return obj.get_sql(qc.SQL_CONTEXT.copy(parameterizer=pz)), list(pz.values)
+        # (a negative constant after a minus sign keeps its parentheses around the placeholder: the text may depend on the SIGN of a value, not on its text)
+        return LONE.sub(lambda m: m.group(1), obj.get_sql(qc.SQL_CONTEXT.copy(parameterizer=pz))), list(pz.values)
     except Exception as e:  # noqa
         return "EXC:" + type(e).__name__, []
 
